@@ -149,6 +149,8 @@ class Preempt:
     @classmethod
     def add_code(cls, code):
         import types
+        if not cls.installed:
+            cls.install()
         if id(code) in cls.codes:
             return
         cls.codes[id(code)] = code
